@@ -27,7 +27,7 @@ MAX_DISCARD = 0.5
 CASE_TIMEOUT = 300
 
 def plan (tier, seed):
-    n = 200 if tier == 'quick' else 4000
+    n = 420 if tier == 'quick' else 4000
     return [dict (i = i, seed = seed) for i in range (n)] \
          + corpus.plan_cases (seed, tier, 1, 4, only = lambda s: all (g ['k'] == 'w' for g in s ['geo']), skip = corpus.OUTSIDE_RULES)
 # end def plan
